@@ -319,7 +319,7 @@ def _ce_uf(it, f, args, kwargs):
     return concretize(SBool(fs_ce(it.to_val(el), it.to_val(name), it.to_val(cat))))
 
 
-@unit("fits_selector", ["C03", "C10", "C11", "C06", "C02"], [O + ":fits_selector"], mode="bounded",
+@unit("fits_selector", ["C03", "C10", "C11", "C06", "C02", "C09", "C05"], [O + ":fits_selector"], mode="bounded",
       bound="<=2 captures per selector level, <=3 variables in the function table (concrete spine, symbolic matching)")
 def u_fits(c):
     """fits_selector(fn, sel) is False iff the function element mismatches (name / return-annotation tag) or some capture
@@ -333,6 +333,13 @@ def u_fits(c):
     anns = {"return": fcat} if fcat is not None else {}
     fn = SymObj("fn", Val.ref(z3.IntVal(c.new_id())), attrs={"__annotations__": anns, "__ptera_info__": info})
     el = SymObj("fel", Val.ref(z3.IntVal(c.new_id())))
+    if c.choose(2, "function-no-longer-instrumented"):
+        # an activation that started while the function was instrumented (a generator still running) reaches proceed after the
+        # last probe was removed: the function has no table any more -- it fits nothing, and nothing fails
+        bare = SymObj("fn-without-table", Val.ref(z3.IntVal(c.new_id())), attrs={"__annotations__": {}}, closed=True)
+        st, res = run(it, it.get_global(O, "fits_selector"), [bare, SymObj("sel", Val.ref(z3.IntVal(c.new_id())), attrs={"element": el, "captures": ()})])
+        c.prove("not-instrumented-any-more/fits-nothing-without-failing", st == "ok" and res is False, note=f"{st} {res!r}", only=["C09", "C05", "C03"])
+        return
     caps = []
     for i in range(c.choose(3)):
         kind = c.choose(7)
